@@ -66,6 +66,15 @@ class C16(Prop):
                 d3 = dict(d1, n=2)
                 api = r.choice(["json", "standjson"])
                 docs = [json.dumps(d).encode() for d in (d1, d2, d3)]
+            elif r.chance(1, 6):
+                # numbers are compared as TEXT: integers beyond 2^53 that differ in the low bits, and two spellings of one
+                # number, are different formatted values at an unmasked path
+                big = r.choice([(9007199254740993, 9007199254740992), (18446744073709551615, 18446744073709551614),
+                                ("1.0", "1"), ("1e2", "100"), ("0.10", "0.1"), ("-0", "0")])
+                mk = lambda acct, created: ('{"account":%s,"createdAt":"%s","name":"jane","ids":[1,%s]}' % (acct, created, acct)).encode()
+                ms = [r.choice([{"kind": "any", "paths": ["createdAt"]}, {"kind": "custom", "paths": ["createdAt"], "ret": "null"}])]
+                api = r.choice(["json", "standjson"])
+                docs = [mk(big[0], "2024-01-01"), mk(big[0], "2025-06-30"), mk(big[1], "2024-01-01")]
             else:
                 ast = J.gen_ast(r, maxdepth=3)
                 ps = pick_paths(r, ast, 4) if ast[0] in ("obj", "arr") else []
@@ -79,7 +88,7 @@ class C16(Prop):
                     if r.chance(2, 3):
                         ms.append({"kind": "any", "paths": [J.gjson_path(p)], "placeholder": r.choice(PLACEHOLDERS)})
                     else:
-                        ms.append({"kind": "custom", "paths": [J.gjson_path(p)], "ret": '"<c>"'})
+                        ms.append({"kind": "custom", "paths": [J.gjson_path(p)], "ret": r.choice(['"<c>"', '"<c>"', "null", "0"])})
                 a2 = ast
                 for p in masked:
                     cur = J.get_at(a2, p)
